@@ -192,7 +192,7 @@ Definition snap_pkg : pkg :=
 
 Lemma snap_facts :
   In (p_type snap_purl) emitted_types /\ norm snap_purl = Some snap_purl /\ law_domain snap_purl = true /\
-  print_parse_model snap_purl = None /\ spdx_exportable snap_pkg = true.
+  print_parse_model snap_purl = Some snap_purl /\ spdx_exportable snap_pkg = true.
 Proof. vm_compute. repeat split; try reflexivity. tauto. Qed.
 
 (* the tag-value document is never inside the tag-value codec's domain *)
@@ -232,25 +232,9 @@ Proof.
 Qed.
 
 Lemma emitted_inventories_in_D_lemma : forall inv,
-  (forall p, In p (inv_purls inv) -> In (p_type p) emitted_types /\ in_D_type (p_type p) = true /\ norm p <> None) ->
+  (forall p, In p (inv_purls inv) -> In (p_type p) emitted_types /\ norm p <> None) ->
   roundtrip_D inv = true.
 Proof.
-  intros inv H. unfold roundtrip_D. apply forallb_forall. intros p Hp. destruct (H p Hp) as [Ht [HD Hn]].
-  unfold importable. rewrite (emitted_types_valid_on_D_lemma _ Ht HD). destruct (norm p); [reflexivity|contradiction].
-Qed.
-
-Lemma sbom_roundtrip_refuted_lemma :
-  forall (pstring : purl -> bytes) (pparse : bytes -> option purl),
-    (forall p, law_domain p = true -> pparse (pstring p) = norm p) ->
-    exists inv d,
-      to_spdx pstring inv = Ok d /\
-      (forall p, In p (inv_purls inv) -> In (p_type p) emitted_types /\ norm p <> None /\ law_domain p = true) /\
-      ~ Permutation (map Some (purls_of (import_spdx pparse d))) (map norm (inv_purls (exportable_spdx inv))).
-Proof.
-  intros pstring pparse L. destruct snap_facts as [F1 [F2 [F3 [F4 F5]]]].
-  exists [snap_pkg]. eexists. split; [reflexivity|]. split.
-  - intros p [<-|[]]. rewrite F2. split; [exact F1|split; [discriminate|exact F3]].
-  - rewrite (spdx_import_exact_lemma pstring pparse L [snap_pkg] _ _ (eq_refl : forallb law_domain (inv_purls [snap_pkg]) = true) eq_refl eq_refl).
-    unfold exportable_spdx. cbn [filter]. rewrite F5. cbn [inv_purls map snap_pkg k_purl filter_some]. rewrite F4, F2. cbn [filter_some map].
-    intro P. apply Permutation_nil in P. discriminate.
+  intros inv H. unfold roundtrip_D. apply forallb_forall. intros p Hp. destruct (H p Hp) as [Ht Hn].
+  unfold importable. rewrite (emitted_types_valid_lemma _ Ht). destruct (norm p); [reflexivity|contradiction].
 Qed.
